@@ -322,7 +322,8 @@ fn chainmul(rng: &mut Rng, iters: u64, only: Option<u64>) {
             }
         }
     }
-    ks.retain(|&k| chain_len(k) <= 32);
+    // (F2b is fixed: scalars whose chain needs 33 opcodes are tested like the others)
+    let _ = chain_len;
     if let Some(k) = only {
         ks = vec![k];
     }
